@@ -128,6 +128,16 @@ def arr_ite(c, a, b):
                 z3.If(c, a.own, b.own))
 
 
+def widen5(a):
+    """element of a core list that may hold 4-d cores and one 5-d block core (evp.als keeps all eigenvectors in a 5-d first core):
+    five shape slots, the rank is a term (4 or 5); the fifth slot of a 4-d core is meaningless"""
+    if len(a.shape) == 5 and not is_conc_int(a.ndim):
+        return a
+    nd = len(a.shape) if is_conc_int(a.ndim) else a.ndim
+    shape = list(a.shape) + ([z3.IntVal(1)] if len(a.shape) == 4 else [])
+    return SArr(shape, a.cplx, a.buf, a.contig, z3.IntVal(nd) if is_conc_int(nd) else nd, dict(a.flags), a.kind, a.own)
+
+
 class SDType:
     """a NumPy dtype chosen by a data-dependent conditional expression: only its complexness is tracked"""
 
@@ -305,7 +315,9 @@ class SList:
         # A typed list (cores: 4-d arrays, stacks: Optional n-d arrays) may transiently hold an array of another rank
         # (x.cores[i] = <matrix>; ...; x.cores[i] = x.cores[i].reshape(4-d)).  Reads at the syntactically same index see
         # the stored value; every specification sees an unknown element of unknown rank in that slot.
-        want = 4 if self.kind == 'arr' else int(self.kind[6:]) if self.kind.startswith('optarr') else None
+        if self.kind == 'arr5' and isinstance(val, SArr) and len(val.shape) in (4, 5) and is_conc_int(val.ndim):
+            val = widen5(val)
+        want = 4 if self.kind == 'arr' else 5 if self.kind == 'arr5' else int(self.kind[6:]) if self.kind.startswith('optarr') else None
         key = str(z3.simplify(zi(idx)))
         tr = getattr(self, 'transients', None)
         if tr is None:
